@@ -279,6 +279,15 @@ def check_walker_paths(ctx, ws):
                     for c in p.conds)
                 if not (seen_attr or seen_cls) and blind is None:
                     blind = (p, q.rsplit('.', 1)[-1], a)
+                # children that are present must be walked
+                present = any(c.kind == 'test' and c.pol and reads_attr(
+                    c.expr, a) and not isinstance(t.expand(c.expr),
+                                                  ast.Compare)
+                    for c in p.conds)
+                walked = any(c.kind == 'loop' and reads_attr(c.expr, a)
+                             for c in p.conds)
+                if present and not walked and blind is None:
+                    blind = (p, q.rsplit('.', 1)[-1], a)
         ctx.ob('C13.EXHAUSTIVE', blind is None,
                '%s:%d' % (F, blind[0].outcome.line) if blind
                else ctx.where(w.module, w.node), w.qual,
